@@ -637,6 +637,20 @@ func localConfigs(r *vk.Run) []*localCfg {
 	out = append(out, &localCfg{name: fmt.Sprintf("eq4/self%d(proposer-of-r2)/sym/4rounds/relocked-A-r2-moved-to-r3", p2), powers: eq, self: p2, rounds: 4, minR: 1, sym: true,
 		depth: r.Pick(4, 6), maxSt: r.Pick(60000, 1500000), prefix: append(append([]string{}, relock...), pc2N, pc2N, T),
 		expect: "R3 S3 lock=2 | " + relockVotes})
+	// five equal validators: total power 5 = 2 (mod 3), where floor-based quorum formulas go wrong (floor(2T/3)+1 = 4 votes
+	// are needed, 3 of 5 is only 60%); the oracle's quorum is the exact 3*power > 2*total
+	eq5 := []int64{1, 1, 1, 1, 1}
+	f5 := csnet.NewFixture(eq5)
+	self5 := f5.ProposerAt(f5.GenesisStatus(), 4)
+	for rr := 0; rr < 3; rr++ {
+		if f5.ProposerAt(f5.GenesisStatus(), rr) == self5 {
+			vk.Fatalf("fixture: proposer rotation of 5 equal validators is not a 5-cycle")
+		}
+	}
+	out = append(out, &localCfg{name: fmt.Sprintf("eq5/self%d(non-proposer)/sym/init", self5), powers: eq5, self: self5, rounds: 2, sym: true,
+		depth: r.Pick(4, 6), maxSt: r.Pick(60000, 1500000), expect: "R0 S1 lock=- | "})
+	out = append(out, &localCfg{name: fmt.Sprintf("eq5/self%d(non-proposer)/sym/locked-A-r0", self5), powers: eq5, self: self5, rounds: 2, sym: true,
+		depth: r.Pick(3, 5), maxSt: r.Pick(60000, 1500000), prefix: []string{T, PA, pvA, pvA, pvA}, expect: "R0 S6 lock=0 | r0:pc:A r0:pv:A"})
 	// peer +2/3 claims, equivocation and re-delivery of the equivocating vote (one counted vote per validator per value,
 	// whatever the peers claim): round 0 only, from the locked state
 	out = append(out, &localCfg{name: fmt.Sprintf("eq4/self%d(non-proposer)/sym/equiv+maj23+redelivery/locked-A-r0", other), powers: eq, self: other, rounds: 1, sym: true,
